@@ -20,6 +20,7 @@ import (
 	"reflect"
 	"sort"
 	"strconv"
+	"strings"
 	"sync/atomic"
 	"time"
 
@@ -65,13 +66,13 @@ const allOffsetsUpTo = 12000
 // of the stream or from the start of a payload behind a header of up to 40 bytes, all lie there).
 // fullProductAt: the whole product {EOF, injected} x {with the last bytes, on the next call} + a
 // transient failure, on both source kinds, is run at offset k of an n-byte stream when n <=
-// fullProductUpTo, in the first and last 600 offsets, and from 8 below to 40 above every multiple of
+// fullProductUpTo, in the first and last 300 offsets, and from 8 below to 40 above every multiple of
 // 512; the other offsets of a longer stream get an EOF on the next call and an injected error with the
 // last bytes, on the plain source.
 const fullProductUpTo = 4500
 
 func fullProductAt(n, k int) bool {
-	return n <= fullProductUpTo || k < 600 || k > n-600 || (k+8)%512 <= 48
+	return n <= fullProductUpTo || k < 300 || k > n-300 || (k+8)%512 <= 48
 }
 
 func faultOffsets(n int) []int {
@@ -438,6 +439,26 @@ func exploreRead(slot int, op *ReadOp, inp *Input, b *baseline, bound int) {
 					execs++
 				})
 			}
+		} else if op.PooledRequests && len(data) > 512 {
+			// request sizes are not reproducible here (see ReadOp.PooledRequests): every position of ONE
+			// segment boundary in the stream (streams longer than allOffsetsUpTo: the positions of the
+			// fault-offset menu), which does not refer to the operation's requests, plus the chunkings
+			for _, p := range faultOffsets(len(st)) {
+				if p == 0 || p >= len(st) {
+					continue
+				}
+				judgeRead(slot, op, inp, b, Case{Side: "read", Op: op.Name, Input: inp.ID, Source: src, Mode: "segments", Cuts: []int{p}}, nil, 0)
+				execs++
+			}
+			rep.Count("long_inputs_of_operations_with_pooled_request_sizes_walked_by_single_cut_positions_(pairs_x_sources)", 1)
+			for _, s := range []int{1, 2, 3, 5, 7} {
+				sizes := make([]int, len(st))
+				for i := range sizes {
+					sizes[i] = s
+				}
+				judgeRead(slot, op, inp, b, Case{Side: "read", Op: op.Name, Input: inp.ID, Source: src, Mode: "reads", Sizes: sizes}, nil, 0)
+				execs++
+			}
 		} else {
 			altCap := 0
 			if len(data) > 96 {
@@ -677,7 +698,7 @@ func sizeClasses() []int {
 }
 
 func allReadOps(genNodes int) ([]*ReadOp, int) {
-	ops := append(wireReadOps(), sessionReadOps()...)
+	ops := append(append(wireReadOps(), sessionReadOps()...), signReadOps()...)
 	n, nGen := nbtReadOps(genNodes, sizeClasses(), rep.Thorough())
 	return append(ops, n...), nGen
 }
@@ -690,8 +711,8 @@ func main() {
 	rep = engine.NewReport("C09")
 	rep.Rule = "case = (operation, input, source kind {plain io.Reader, io.Reader+io.ByteReader}, environment). Environments per (operation, input): " +
 		"inputs <= 12 bytes: every set of segment boundaries inside the input x {boundary, no boundary} between input and sentinel tail (2^n; a Read returns min(asked, rest of segment) — this is every behaviour of a legal reader); " +
-		"longer inputs: every placement of <= b short reads (each shorter legal count is one deviation; for inputs > 96 bytes only the 4 smallest and 4 largest shorter counts per Read), b = the largest bound <= B whose estimated walk fits the per-pair budget (budget x 2000/len for inputs > 2000 bytes; at least 1; see counters long_inputs_walked_to_short_read_bound_*), plus chunkings of at most 1,2,3,5,7 bytes per Read; " +
-		"faults (streams longer than 4500 bytes: the full product only in the first and last 600 offsets and from 8 below to 40 above every multiple of 512, elsewhere {EOF on the next call, injected with the last bytes} on the plain source): every offset k in 0..len(input+tail) (streams longer than 12000 bytes: the first and last 600 offsets and every offset from 8 below to 40 above a multiple of 4096) x {io.EOF, injected} x {error with the last bytes, error on the next call} x {contiguous, 1 byte per Read (inputs <= 96 bytes)}; " +
+		"longer inputs: every placement of <= b short reads (each shorter legal count is one deviation; for inputs > 96 bytes only the 4 smallest and 4 largest shorter counts per Read), b = the largest bound <= B whose estimated walk fits the per-pair budget (budget x 2000/len for inputs > 2000 bytes; at least 1; see counters long_inputs_walked_to_short_read_bound_*), plus chunkings of at most 1,2,3,5,7 bytes per Read (operations whose request sizes depend on a pooled buffer, inputs > 512 bytes: every position of one segment boundary instead of the short-read walk); " +
+		"faults (streams longer than 4500 bytes: the full product only in the first and last 300 offsets and from 8 below to 40 above every multiple of 512, elsewhere {EOF on the next call, injected with the last bytes} on the plain source): every offset k in 0..len(input+tail) (streams longer than 12000 bytes: the first and last 600 offsets and every offset from 8 below to 40 above a multiple of 4096) x {io.EOF, injected} x {error with the last bytes, error on the next call} x {contiguous, 1 byte per Read (inputs <= 96 bytes)}; " +
 		"plus one transient failure (a single failing call at offset k, then the stream carries on) at every k; writers: for every k in 0..len(output) (outputs longer than 12000 bytes: the offsets of the reader menu) a writer that fails from offset k on, a writer that fails only the Write crossing offset k, and a writer whose Write reaching a total of k bytes takes all its bytes and returns an error with them. Cases are distinct by construction (nested loops / distinct choice tapes); " +
 		"non-trivial = the environment actually deviated during the operation (some Read returned fewer bytes than asked or an error; writer failure inside the output)"
 	wd = engine.NewWatchdog(engine.Workers()+1, 30*time.Second, func(desc string) {
@@ -723,6 +744,24 @@ func main() {
 
 	rops, nGen := allReadOps(genNodes)
 	wops := allWriteOps()
+	// C09_ONLY=<substring> (development aid): only the operations whose name contains it; the run is
+	// then reported as capped, never as exhaustive
+	if only := os.Getenv("C09_ONLY"); only != "" {
+		var r2 []*ReadOp
+		for _, o := range rops {
+			if strings.Contains(o.Name, only) {
+				r2 = append(r2, o)
+			}
+		}
+		var w2 []*WriteOp
+		for _, o := range wops {
+			if strings.Contains(o.Name, only) {
+				w2 = append(w2, o)
+			}
+		}
+		rops, wops = r2, w2
+		rep.Cap("C09_ONLY=%s: only %d read and %d write operations were run", only, len(r2), len(w2))
+	}
 	names := map[string]bool{}
 	// ---- baselines (sequential, deterministic order)
 	var rtasks []readTask
